@@ -13,6 +13,11 @@ RULE = ("values of each of the 11 blob structs from per-field pools (every doubl
 LABEL_LADDER = [0, 1, 254, 255, 256, 257, 300]
 
 
+# entry counts around every power of two a narrower count field or a fixed buffer could stop at
+COUNT_LADDER = (127, 128, 129, 255, 256, 257, 1023, 1024, 1025, 4095, 4096, 4097, 16383, 16384, 16385, 32767, 32768, 32769, 40000)
+WAVE_LADDER = (65535, 65536, 65537, 100000)
+
+
 def long_label(rng, n):
     return bytes(rng.choice(b"abcdefghij") for _ in range(n)).hex()
 
@@ -41,13 +46,13 @@ def boundary_values(kind, rng):
             v["loops"] = [G.v2_loop(rng, 20) for _ in range(n)]
             out.append((v, "roundtrip", "entries=%d" % n))
     elif kind == "v2_beat_data":
-        for n in (0, 1, 2, 32768, 32769, 40000):
+        for n in (0, 1, 2) + COUNT_LADDER:
             v = G.v2_beat_data(rng)
-            v["adjusted"] = [[dbits(float(i)), i, 1, 0] for i in range(n)]
+            v["adjusted"] = [[dbits(float(i) + (rng.random() if n % 2 else 0.0)), i, 1, 0] for i in range(n)]
             v["default"] = v["adjusted"][: n // 2]
             out.append((v, "roundtrip", "markers=%d" % n))
     elif kind == "v2_overview":
-        for n in (0, 1, 1024, 100000):
+        for n in (0, 1) + COUNT_LADDER + WAVE_LADDER:
             v = G.v2_overview(rng)
             v["points"] = bytes((i * 3) & 255 for i in range(3 * n)).hex()
             out.append((v, "roundtrip", "points=%d" % n))
@@ -78,11 +83,12 @@ def boundary_values(kind, rng):
         v["loops"][5] = dict(G.v1_loop(rng), start=MINUS1)
         out.append((v, "roundtrip", "offset=-1"))
     elif kind == "v1_beat_data":
-        for n in (0, 2, 3, 32768):
+        for n in (0, 2, 3) + COUNT_LADDER:
             v = G.v1_beat_data(rng)
-            v["adjusted"] = [[i, dbits(float(i) * 10)] for i in range(n)]
+            v["adjusted"] = [[i, dbits(float(i) * 10 + (rng.random() if n % 2 else 0.0))] for i in range(n)]
             v["default"] = list(v["adjusted"])
-            out.append((v, "roundtrip", "markers=%d" % n))
+            # the 1.x decoder has always refused more than 32768 markers, so the encoder may (and does) refuse them too
+            out.append((v, "roundtrip" if n <= 32768 else "either", "markers=%d" % n))
         for _ in range(6):
             v = G.v1_beat_data(rng)
             g, why = G.v1_invalid_grid(rng)
@@ -104,12 +110,12 @@ def boundary_values(kind, rng):
             v["key"] = k
             out.append((v, "roundtrip", "key=each"))
     elif kind == "v1_high_res":
-        for n in (0, 1, 1024, 100000):
+        for n in (0, 1) + COUNT_LADDER + WAVE_LADDER:
             v = G.v1_high_res(rng)
             v["waveform"] = bytes((i * 5) & 255 for i in range(6 * n)).hex()
             out.append((v, "roundtrip", "points=%d" % n))
     elif kind == "v1_overview":
-        for n in (0, 1, 1024, 100000):
+        for n in (0, 1) + COUNT_LADDER + WAVE_LADDER:
             v = G.v1_overview(rng)
             w = bytearray((i * 5) & 255 for i in range(6 * n))
             for i in range(n):
@@ -252,8 +258,8 @@ def run(ctx):
     for kind in KINDS:
         for v, cls, tag in boundary_values(kind, ctx.rng):
             specs.append((kind, "roundtrip", v, (cls, tag)))
-        big = ctx.tier != "quick"
         for i in range(n):
+            big = (ctx.tier != "quick") or i % 25 == 7
             try:
                 v = G.ENCODABLE[kind](ctx.rng, big) if kind in ("v2_beat_data", "v2_overview", "v1_beat_data", "v1_high_res", "v1_overview") else G.ENCODABLE[kind](ctx.rng)
             except TypeError:
